@@ -151,9 +151,9 @@ def finding_matches(k, sig, msg, case):
 JAVA_OPTS = os.environ.get("VERIF_JAVA_OPTS", "-Xmx16g")
 
 
-def _tlc(args, cwd, timeout, env=None, stdout_path=None):
+def _tlc(args, cwd, timeout, env=None, stdout_path=None, java_opts=None):
     e = dict(os.environ)
-    e["JAVA_TOOL_OPTIONS"] = (e.get("JAVA_TOOL_OPTIONS", "") + " " + JAVA_OPTS).strip()
+    e["JAVA_TOOL_OPTIONS"] = (e.get("JAVA_TOOL_OPTIONS", "") + " " + (java_opts or JAVA_OPTS)).strip()
     if env:
         e.update(env)
     cmd = ["timeout", str(timeout), "tlc"] + args
@@ -263,7 +263,7 @@ def tlc_trace(ctx, module, cfg, trace_path, timeout=600, accept="postcondition")
     """Validates one ndjson trace file against a Trace spec.  Returns (accepted, info)."""
     md = tempfile.mkdtemp(prefix="tlcmd.", dir=ctx.workdir)
     args = ["-workers", "1", "-metadir", md, "-config", cfg, module]
-    rc, out = _tlc(args, SPEC, timeout, env={"TRACE": trace_path})
+    rc, out = _tlc(args, SPEC, timeout, env={"TRACE": trace_path}, java_opts="-Xmx3g -XX:ParallelGCThreads=2")
     shutil.rmtree(md, ignore_errors=True)
     if rc == 124:
         raise Machinery("TLC timed out validating %s" % trace_path)
@@ -272,10 +272,24 @@ def tlc_trace(ctx, module, cfg, trace_path, timeout=600, accept="postcondition")
     dm = re.search(r"The depth of the complete state graph search is (\d+)", out)
     depth = int(dm.group(1)) if dm else 0
     if accept == "postcondition":
+        mm = re.search(r'<<"MATCHED", (\d+), (\d+)(?:, (.*))?>>', out)
+        info = {"depth": depth, "states": dist}
+        if mm:
+            info["matched"] = int(mm.group(1))
+            info["len"] = int(mm.group(2))
+            info["state"] = mm.group(3) or ""
         if "Model checking completed. No error has been found." in out:
-            return True, {"depth": depth, "states": dist}
-        if "TraceAccepted" in out or "Postcondition" in out or "postcondition" in out:
-            return False, {"depth": depth, "states": dist, "out": out[-1500:]}
+            return True, info
+        if mm and "Postcondition TraceAccepted" in out:
+            info["out"] = out[-1500:]
+            return False, info
+        viol = re.search(r"Invariant (\w+) is violated", out)
+        if viol:
+            # an invariant of the spec fails on an observed state: count the states reached
+            info["matched"] = max(depth - 1, 0)
+            info["invariant"] = viol.group(1)
+            info["out"] = out[-1500:]
+            return False, info
         raise Machinery("TLC failed on trace %s:\n%s" % (trace_path, out[-3000:]))
     else:  # accept == "notaccepted": violation of invariant NotAccepted means accepted
         if "Invariant NotAccepted is violated" in out:
@@ -283,6 +297,63 @@ def tlc_trace(ctx, module, cfg, trace_path, timeout=600, accept="postcondition")
         if "Model checking completed. No error has been found." in out:
             return False, {"depth": depth, "states": dist, "out": out[-1500:]}
         raise Machinery("TLC failed on trace %s:\n%s" % (trace_path, out[-3000:]))
+
+
+def validate_trace_file(ctx, module, cfg, path, start_prefix='{"e":"Cfg"', timeout=900):
+    """Validates a file of concatenated runs.  Returns (n_runs, n_events, rejected) where rejected is a
+    list of dicts {run, lines, at, event, state}; a run is reported only if it is rejected again alone;
+    validation continues with the runs after a rejected one."""
+    with open(path) as f:
+        lines = [l.rstrip("\n") for l in f if l.strip()]
+    starts = [i for i, l in enumerate(lines) if l.startswith(start_prefix)]
+    if not starts:
+        return 0, 0, []
+    starts.append(len(lines))
+    rejected = []
+    pos_run = 0
+    guard = 0
+    while pos_run < len(starts) - 1:
+        guard += 1
+        if len(rejected) >= 6 or guard > 30:
+            log("[trace] %s: validation stopped after %d rejected runs" % (path, len(rejected)))
+            break
+        seg = lines[starts[pos_run]:]
+        tmp = path + ".seg"
+        with open(tmp, "w") as f:
+            f.write("\n".join(seg) + "\n")
+        ok, info = tlc_trace(ctx, module, cfg, tmp, timeout=timeout)
+        if ok:
+            break
+        fail_line = starts[pos_run] + info["matched"]   # first unmatched event (0-based)
+        r = max(k for k in range(len(starts) - 1) if starts[k] <= fail_line)
+        run_lines = lines[starts[r]:starts[r + 1]]
+        with open(tmp, "w") as f:
+            f.write("\n".join(run_lines) + "\n")
+        ok2, info2 = tlc_trace(ctx, module, cfg, tmp, timeout=timeout)
+        if not ok2:
+            at = info2["matched"]
+            ev = run_lines[at] if at < len(run_lines) else "<end of trace>"
+            rejected.append({"run": r, "lines": run_lines, "at": at, "event": ev,
+                             "state": info2.get("state", ""), "invariant": info2.get("invariant")})
+        else:
+            log("[trace] run %d of %s rejected in context but accepted alone - not reported" % (r, path))
+        pos_run = r + 1
+    try:
+        os.remove(path + ".seg")
+    except OSError:
+        pass
+    return len(starts) - 1, len(lines), rejected
+
+
+def validate_traces(ctx, module, cfg, paths, start_prefix='{"e":"Cfg"'):
+    """Validates several trace files in parallel (one TLC each)."""
+    import concurrent.futures
+    out = []
+    with concurrent.futures.ThreadPoolExecutor(max_workers=NPROC) as ex:
+        futs = [ex.submit(validate_trace_file, ctx, module, cfg, p, start_prefix) for p in paths]
+        for f in futs:
+            out.append(f.result())
+    return out
 
 
 # ---------------------------------------------------------------------------
@@ -305,7 +376,7 @@ def split_file(path, n, workdir):
     return [(outs[i].name, idx[i]) for i in range(n) if idx[i]], k
 
 
-def replay(ctx, subcmd, beh_path, extra_args=(), variant="asan", nproc=None, timeout=1800, env=None):
+def replay(ctx, subcmd, beh_path, extra_args=(), variant="asan", nproc=None, timeout=1800, env=None, keep=False):
     """Runs `vh <subcmd> <chunk> <skip> <seed> extra...` over the behaviours in parallel.
     A crash (sanitizer report, signal) is attributed to the behaviour that had begun and the
     run resumes after it.  Returns list of result dicts with 'i' = line index in beh_path."""
@@ -368,8 +439,10 @@ def replay(ctx, subcmd, beh_path, extra_args=(), variant="asan", nproc=None, tim
                 if begun + 1 < len(idxmap):
                     nxt.append(launch(ci, begun + 1))
         active = nxt
-    shutil.rmtree(wd, ignore_errors=True)
     results.sort(key=lambda o: o["i"])
+    if keep:
+        return results, total, [c[0] for c in chunks]
+    shutil.rmtree(wd, ignore_errors=True)
     return results, total
 
 
